@@ -62,7 +62,9 @@ class C19(Check):
             "rule-built orders for n = 5); single areas and pairs with lengths k*B-1, k*B, k*B+1 for "
             "B in {32,55,56,64,128,224,255,256,448,512,1024,4096}, k = 1..3; a sweep of single-area "
             "images of every length 1..600 (quick: every 7th and all multiples of 16) through "
-            "`signapp hash`; format variants (CRLF, lower case, redundant upper-address "
+            "`signapp hash`; images whose path as given looks like another kind of argument (64 hex "
+            "digits, 0x + 64 hex, a number, a key, an operation name), for hash / message / message -o; "
+            "images given to signonetime through symbolic links; format variants (CRLF, lower case, redundant upper-address "
             "records, start-address record, records of an area in reverse, per-area lengths); each "
             "file through compute_app_hash, each layout through `signapp hash`; signonetime with "
             "1..4 images x 2 runs (file names with non-ASCII letters, blanks, no extension); `signapp "
@@ -136,6 +138,7 @@ class C19(Check):
         cs.append({"kind": "variants"})
         for new in range(8):
             cs.append({"kind": "embed", "new": new})
+        cs.append({"kind": "namelike"})
         for part in range(12):
             cs.append({"kind": "blocks", "part": part})
         for part in range(4):
@@ -162,6 +165,8 @@ class C19(Check):
                 self.case_embed(case, stats, vs)
             elif k == "blocks":
                 self.case_blocks(case, stats, vs)
+            elif k == "namelike":
+                self.case_namelike(case, stats, vs)
             elif k == "sweep":
                 self.case_sweep(case, stats, vs)
         return vs
@@ -272,6 +277,60 @@ class C19(Check):
                             a2["via"] = "main"
                             a2["verbose"] = ctr % 2 == 0
                             self.x_hash(a2, stats, vs)
+
+    # -- route namelike: image paths that look like other kinds of argument ---------------
+    def x_namelike(self, a, stats, vs):
+        """args: name (file name of the image, given relative to the working directory), pool
+        (image), op: hash | message | message-o, sub (put the image in a sub-directory)"""
+        import json
+        td = self.td
+        td.clear()
+        ls, gs, pl, pol, od = self.pool()[a.pool]
+        img = self.image(ls, gs, pl)
+        want = ihex.reference_hash(img)
+        rel = ("dir/" + a.name) if a.sub else a.name
+        td.write_in(rel, ihex.write(img, policy=pol, order=od)) if a.sub else \
+            td.write(rel, ihex.write(img, policy=pol, order=od))
+        argv = {"hash": ["hash", "-a", rel], "message": ["message", "-a", rel, "-i", "7"],
+                "message-o": ["message", "-a", rel, "-i", "7", "-o", "auth.json"]}[a.op]
+        stats.evaluations += 1
+        r = opstub.run_main(self.signapp.main, ["signapp.py"] + argv, cwd=td.path,
+                            patches=opstub.seam_urandom(opstub.ByteStream("c19-namelike")))
+        text = "RSK_powHSM_signer_%s_iteration_7" % want.hex()
+        ok = False
+        if r.code == 0 and not r.exc:
+            if a.op == "hash":
+                ok = want.hex() in r.out.lower()
+            elif a.op == "message":
+                ok = text in r.out
+            else:
+                try:
+                    ok = json.loads(td.read("auth.json"))["signer"] == {"hash": want.hex(), "iteration": 7}
+                except Exception:   # noqa
+                    ok = False
+        stats.observe(("namelike", a.kind, a.op, bool(a.sub), r.code, ok))
+        stats.sample({"route": "namelike", "name": rel, "op": a.op, "exit": r.code})
+        if not ok:
+            self.viol(vs, "hash" if r.code == 0 else "image-refused", "namelike:%s:%s" % (a.kind, a.op),
+                      "namelike", a, {"exit": r.code, "exc": r.exc, "out": r.out[-300:],
+                                      "file": td.read("auth.json")},
+                      {"hash_of_the_file_named": rel, "hash": want.hex()})
+
+    def case_namelike(self, case, stats, vs):
+        import hashlib
+        other = hashlib.sha256(b"c19 some other content").hexdigest()
+        key = ecsig.seeded_scalar(Rng("c19-namelike-key")).hex()
+        names = [("hex64", other), ("0x-hex64", "0x" + other), ("HEX64", other.upper()),
+                 ("number", "65535"), ("zero", "0"), ("hex-number", "0x10"), ("keylike", key),
+                 ("hex64.hex", other + ".hex"), ("operation", "hash"), ("operation-message", "message"),
+                 ("der-like", "3044" + other[:60]), ("dashdash", "--app"), ("path-like", "m")]
+        for kind, name in names:
+            for op in ("hash", "message", "message-o"):
+                for sub in (False, True):
+                    if kind == "dashdash" and not sub:
+                        continue           # a bare option-like value is the option parser's business
+                    self.x_namelike(Args(name=name, kind=kind, pool=(len(name) + sub) % 8, op=op, sub=sub),
+                                    stats, vs)
 
     def case_blocks(self, case, stats, vs):
         """areas whose length sits at a block-size edge: alone, before and after a small area"""
@@ -459,7 +518,13 @@ class C19(Check):
             ls, gs, pl, pol, order = pool[pi]
             img = self.image(ls, gs, pl)
             nm = ["app%d_%d.hex", "aplicaci\u00f3n%d_%d.hex", "app %d %d.hex", "app%d_%d"][(j + pi) % 4] % (j, pi)
-            td.write(nm, ihex.write(img, policy=pol, order=order))
+            if j in (a.links or []):
+                # the image is given through a symbolic link: its signature belongs next to the
+                # path as given (<link>.sig), whatever the link points to
+                td.write_in("store/real%d.bin" % j, ihex.write(img, policy=pol, order=order))
+                td.symlink("store/real%d.bin" % j, nm)
+            else:
+                td.write(nm, ihex.write(img, policy=pol, order=order))
             names.append(nm)
             wants.append(ihex.reference_hash(img))
         names_ok, wants_ok = list(names), list(wants)
@@ -480,18 +545,18 @@ class C19(Check):
             names, wants = (names_bad, wants_bad) if bad_run else (names_ok, wants_ok)
             app_arg = a.sep.join(td.file(n) for n in names)
             stream = opstub.ByteStream(label)
-            inputs = {n: td.read(n, binary=True) for n in td.listing() if n in names}
-            before = {n: td.read(n, binary=True) for n in td.listing()}
+            inputs = {n: td.read(n, binary=True) for n in td.walk() if n in names}
+            before = {n: td.read(n, binary=True) for n in td.walk()}
 
             def stat_of(n):
                 st = os.stat(td.file(n))
                 return (st.st_ino, st.st_mtime_ns, st.st_size)
-            stat_before = {n: stat_of(n) for n in td.listing()}
+            stat_before = {n: stat_of(n) for n in td.walk()}
             r = opstub.run_main(self.signonetime.main,
                                 ["signonetime.py", "-a", app_arg, "-p", pkpath + (" " if a.pad else "")] +
                                 (["-v"] if a.verbose else []),
                                 patches=opstub.seam_urandom(stream))
-            files = {n: td.read(n, binary=True) for n in td.listing()}
+            files = {n: td.read(n, binary=True) for n in td.walk()}
             # written in this run: new or changed content, or rewritten with the same content
             written = {n: c for n, c in files.items()
                        if before.get(n) != c or stat_before.get(n) != stat_of(n)}
@@ -699,6 +764,7 @@ class C19(Check):
             images.append(next(i for i in range(npool) if i not in images))
         sep = [",", ", ", " ,", " , "][v % 4]
         self.x_onetime(Args(images=images, sep=sep, pad=v % 2 == 1, verbose=v % 4 >= 2,
+                            links=[[], [0], [n - 1], list(range(n))][v % 4],
                             streams=["c19-run-%d-%d-a" % (n, v), "c19-run-%d-%d-b" % (n, v)]), stats, vs)
         if v == 0:
             # an unreadable image at each position of the list, in both runs or only in the second
